@@ -149,6 +149,7 @@ func (r *harnessResult) merge(o *harnessResult) {
 type RunStats struct {
 	Queries, Sat, Unsat, Unknown, Errors int
 	GuessHits, GuessMiss, ModelHits      int
+	Retried                              int
 	SolverDur, MaxQuery                  time.Duration
 	Funcs                                map[string]int
 	Notes                                map[string]bool
@@ -411,18 +412,25 @@ func (in *Interp) runTask(t *task, p *pool, res *harnessResult, cfg *Config) {
 func collectStats(ins []*Interp) *RunStats {
 	st := &RunStats{Funcs: map[string]int{}, Notes: map[string]bool{}}
 	for _, in := range ins {
-		s := in.sol
-		st.Queries += s.Queries
-		st.Sat += s.Sat
-		st.Unsat += s.Unsat
-		st.Unknown += s.Unknown
-		st.Errors += s.Errors
-		st.GuessHits += in.guessHits
-		st.GuessMiss += in.guessMiss
-		st.ModelHits += in.modelHits + in.synHits
-		st.SolverDur += s.Dur
-		if s.MaxQuery > st.MaxQuery {
-			st.MaxQuery = s.MaxQuery
+		for _, s := range []*Solver{in.sol, in.sol2, in.sol3} {
+			if s == nil {
+				continue
+			}
+			if s != in.sol {
+				st.Retried += s.Queries
+			}
+			st.Queries += s.Queries
+			st.Sat += s.Sat
+			st.Unsat += s.Unsat
+			st.Unknown += s.Unknown
+			st.Errors += s.Errors
+			st.GuessHits += in.guessHits
+			st.GuessMiss += in.guessMiss
+			st.ModelHits += in.modelHits + in.synHits
+			st.SolverDur += s.Dur
+			if s.MaxQuery > st.MaxQuery {
+				st.MaxQuery = s.MaxQuery
+			}
 		}
 		for f, n := range in.funcsRun {
 			st.Funcs[f.String()] += n
@@ -470,7 +478,13 @@ func explore(prog *ssa.Program, hs []*ssa.Function, cfg *Config) (map[string]*ha
 			defer wg.Done()
 			in := newInterp(prog, cfg)
 			ins[w] = in
-			defer in.sol.Close()
+			defer func() {
+				for _, s := range []*Solver{in.sol, in.sol2, in.sol3} {
+					if s != nil {
+						s.Close()
+					}
+				}
+			}()
 			for {
 				t := p.pop()
 				if t == nil {
